@@ -161,39 +161,41 @@ end Nervus.Crash
 
 namespace Nervus.Crash
 
-variable {p0 : PImg} {live : Nat} {allowed covered : List Nat}
+variable {p0 : PImg} {live lo : Nat} {allowed covered : List Nat}
 
 /-! ### block judgements of the three parts -/
 
 def segJs (m : Mem) : List Nat := (List.range (cNData m - 1)).map (· + 1)
 
-theorem pblk_segA (m : Mem) (ps0 : PS) (hsk : SameKey p0.hdr ps0.pm) (hnp : ps0.pm.nextPage = p0.hdr.nextPage) :
-    (segA m ps0).2.2 = p0.hdr.nextPage ∧
-    ∃ nd', PBlk p0 live allowed covered p0.hdr.nextPage ps0 (segA m ps0).1
-      ((0 :: (segJs m ++ [cNData m])).map (fun j => PEff.segPart p0.hdr.nextPage j (cNData m + 1) (cEdges m))) nd' (segA m ps0).2.1 := by
-  obtain ⟨b0, hk0, _⟩ := pblk_alloc (p0 := p0) (live := live) (allowed := allowed) (covered := covered) ps0 hsk hnp
-  have bw1 := pblk_write (p0 := p0) (live := live) (allowed := allowed) (covered := covered) b0.sk b0.np
-    (.segPart p0.hdr.nextPage 0 (cNData m + 1) (cEdges m)) (allocA ps0).2.2 ⟨Nat.le_refl _, by omega⟩
-  have b2 := pblk_segParts (p0 := p0) (live := live) (allowed := allowed) (covered := covered) p0.hdr.nextPage (cNData m + 1) (cEdges m)
-    (Nat.le_refl _) (segJs m) (p0.hdr.nextPage + 1) (allocA ps0).2.1 b0.sk b0.np (by omega)
-  obtain ⟨b3, _, _⟩ := pblk_alloc (p0 := p0) (live := live) (allowed := allowed) (covered := covered)
-    (segPartsA p0.hdr.nextPage (cNData m + 1) (cEdges m) (allocA ps0).2.1 (segJs m)).2 b2.sk b2.np
-  have bw4 := pblk_write (p0 := p0) (live := live) (allowed := allowed) (covered := covered) b3.sk b3.np
-    (.segPart p0.hdr.nextPage (cNData m) (cNData m + 1) (cEdges m))
-    (allocA (segPartsA p0.hdr.nextPage (cNData m + 1) (cEdges m) (allocA ps0).2.1 (segJs m)).2).2.2 ⟨Nat.le_refl _, by omega⟩
-  have bs := pblk_sync (p0 := p0) (live := live) (allowed := allowed) (covered := covered) b3.sk b3.np
+theorem pblk_segA (m : Mem) (ps0 : PS) (hsk : SameKey p0.hdr ps0.pm) (hnp : lo ≤ min ps0.bm ps0.pm.nextPage) :
+    (segA m ps0).2.2 = min ps0.bm ps0.pm.nextPage ∧
+    ∃ nd', PBlk p0 live allowed covered lo lo ps0 (segA m ps0).1
+      ((0 :: (segJs m ++ [cNData m])).map (fun j => PEff.segPart (min ps0.bm ps0.pm.nextPage) j (cNData m + 1) (cEdges m))) nd'
+      (segA m ps0).2.1 := by
+  obtain ⟨b0, hk0, _⟩ := pblk_alloc (p0 := p0) (live := live) (lo := lo) (allowed := allowed) (covered := covered) ps0 hsk hnp
+  generalize hmf : min ps0.bm ps0.pm.nextPage = mf at b0 hk0 hnp
+  have bw1 := pblk_write (p0 := p0) (live := live) (lo := lo) (allowed := allowed) (covered := covered) b0.sk b0.np
+    (.segPart mf 0 (cNData m + 1) (cEdges m)) (allocA ps0).2.2 ⟨hnp, by omega⟩
+  have b2 := pblk_segParts (p0 := p0) (live := live) (lo := lo) (allowed := allowed) (covered := covered) mf (cNData m + 1) (cEdges m)
+    hnp (segJs m) (mf + 1) (allocA ps0).2.1 b0.sk b0.np (by omega)
+  obtain ⟨b3, _, _⟩ := pblk_alloc_eq (p0 := p0) (live := live) (lo := lo) (allowed := allowed) (covered := covered)
+    (segPartsA mf (cNData m + 1) (cEdges m) (allocA ps0).2.1 (segJs m)).2 b2.sk b2.np
+  have bw4 := pblk_write (p0 := p0) (live := live) (lo := lo) (allowed := allowed) (covered := covered) b3.sk b3.np
+    (.segPart mf (cNData m) (cNData m + 1) (cEdges m))
+    (allocA (segPartsA mf (cNData m + 1) (cEdges m) (allocA ps0).2.1 (segJs m)).2).2.2 ⟨hnp, by omega⟩
+  have bs := pblk_sync (p0 := p0) (live := live) (lo := lo) (allowed := allowed) (covered := covered) b3.sk b3.np
   have hall := ((((b0.append bw1).append b2).append b3).append bw4).append bs
-  refine ⟨by simp [segA, hk0], p0.hdr.nextPage + 1 + (segJs m).length + 1, ?_⟩
-  have hk : (allocA ps0).2.2 = p0.hdr.nextPage := hk0
+  refine ⟨by simp [segA, hk0], mf + 1 + (segJs m).length + 1, ?_⟩
+  have hk : (allocA ps0).2.2 = mf := hk0
   simpa [segA, segJs, hk, List.append_assoc] using hall
 
 theorem leaf1_empty (r : Nat) : Leaf1 (emptyTree r) [] r := ⟨rfl, rfl⟩
 
 theorem pblk_treeA (cfg : Cfg) (m : Mem) (vol : PImg) (ps : PS) (nd : Nat) (hsk : SameKey p0.hdr ps.pm)
-    (hnp : ps.pm.nextPage = nd) (hpos : 0 < nd) (hlive : live = m.proot) (hvol : vol.trees = p0.trees)
+    (hnp : min ps.bm ps.pm.nextPage = nd) (hpos : 0 < nd) (hlive : live = m.proot) (hvol : vol.trees = p0.trees)
     (hns : NoSplit cfg m vol) (hprops : ∀ q ∈ cProps m, q ∈ allowed) (hcov0 : live = 0 → covered = [])
     (htree : live ≠ 0 → ∃ t, treeFind p0 live = some t ∧ TreeOK allowed covered t) :
-    ∃ nd' effs, PBlk p0 live allowed covered nd ps (treeA cfg m vol ps).1 effs nd' (treeA cfg m vol ps).2.1 ∧
+    ∃ nd' effs, PBlk p0 live allowed covered lo nd ps (treeA cfg m vol ps).1 effs nd' (treeA cfg m vol ps).2.1 ∧
       (∀ e ∈ effs, TreeE e) ∧
       (cProps m = [] → (treeA cfg m vol ps).2.2 = (m.proot, m.ptop) ∧ effs = []) ∧
       (cProps m ≠ [] → (treeA cfg m vol ps).2.2.1 ≠ 0 ∧ (treeA cfg m vol ps).2.2.2 = false ∧
@@ -201,7 +203,7 @@ theorem pblk_treeA (cfg : Cfg) (m : Mem) (vol : PImg) (ps : PS) (nd : Nat) (hsk 
           ∃ t, treeFind (applyEffs effs p) (treeA cfg m vol ps).2.2.1 = some t ∧ TreeOK allowed (covered ++ cProps m) t) := by
   by_cases hp : cProps m = []
   · refine ⟨nd, [], ?_, by simp, fun _ => ⟨by simp [treeA, hp], rfl⟩, fun h => absurd hp h⟩
-    simpa [treeA, hp] using PBlk.nil (live := live) (allowed := allowed) (covered := covered) hsk hnp
+    simpa [treeA, hp] using PBlk.nil (live := live) (lo := lo) (allowed := allowed) (covered := covered) hsk hnp
   · have hpe : (cProps m).isEmpty = false := by
       cases h : cProps m with
       | nil => exact absurd h hp
@@ -209,15 +211,15 @@ theorem pblk_treeA (cfg : Cfg) (m : Mem) (vol : PImg) (ps : PS) (nd : Nat) (hsk 
     by_cases hr : m.proot = 0
     · -- a new tree
       have hl0 : live = 0 := by rw [hlive, hr]
-      obtain ⟨ba, hpid, _⟩ := pblk_alloc (p0 := p0) (live := live) (allowed := allowed) (covered := covered) ps hsk hnp
+      obtain ⟨ba, hpid, _⟩ := pblk_alloc_eq (p0 := p0) (live := live) (lo := lo) (allowed := allowed) (covered := covered) ps hsk hnp
       have hrne : (allocA ps).2.2 ≠ live := by rw [hpid, hl0]; omega
-      have bn := pblk_write (p0 := p0) (live := live) (allowed := allowed) (covered := covered) ba.sk ba.np
+      have bn := pblk_write (p0 := p0) (live := live) (lo := lo) (allowed := allowed) (covered := covered) ba.sk ba.np
         (.treeNew (allocA ps).2.2) (allocA ps).2.2 ⟨hrne, by rw [hpid]; omega⟩
       have hcap : ([] : List Nat).length + (cProps m).length ≤ cfg.leafCap := by
         have := hns
         simp only [NoSplit, liveLeafLen, hr, if_true] at this
         simpa using this
-      obtain ⟨bs, hres⟩ := pblk_sink (p0 := p0) (live := live) (allowed := allowed) (covered := covered) cfg (cProps m) (nd + 1)
+      obtain ⟨bs, hres⟩ := pblk_sink (p0 := p0) (live := live) (lo := lo) (allowed := allowed) (covered := covered) cfg (cProps m) (nd + 1)
         (allocA ps).2.1 (emptyTree (allocA ps).2.2) [] (allocA ps).2.2 ba.sk ba.np (leaf1_empty _) hcap (Or.inl hrne)
       have hall := (ba.append bn).append bs
       refine ⟨_, _, by simpa [treeA, treeStartA, hpe, hr] using hall, ?_, fun h => absurd h hp, fun _ => ⟨?_, ?_, ?_⟩⟩
@@ -265,7 +267,7 @@ theorem pblk_treeA (cfg : Cfg) (m : Mem) (vol : PImg) (ps : PS) (nd : Nat) (hsk 
           rw [hvol, ← hlive]; exact hf0
         simp only [NoSplit, liveLeafLen, hr, if_false, hfv, hlv] at this
         simpa using this
-      obtain ⟨bs, hres⟩ := pblk_sink (p0 := p0) (live := live) (allowed := allowed) (covered := covered) cfg (cProps m) nd
+      obtain ⟨bs, hres⟩ := pblk_sink (p0 := p0) (live := live) (lo := lo) (allowed := allowed) (covered := covered) cfg (cProps m) nd
         ps t0 xs0 pid0 hsk hnp hl1 hcap (Or.inr ⟨hsrt, hal, fun q hq => (hcv q hq).1, hprops⟩)
       refine ⟨_, _, by simpa [treeA, treeStartA, hpe, hr, hfind] using bs, sinkEffs_treeE _ _ _ _, fun h => absurd h hp,
         fun _ => ⟨?_, ?_, ?_⟩⟩
@@ -305,18 +307,24 @@ theorem complete_parts (m : Mem) (k : Nat) (es : List Nat) :
   · simp [segJs, cNData, h, SegImg.complete]
     decide
 
+/-- the allocation frontier: every data page below it is marked allocated and counted by the meta page -/
+def frontier (p : PImg) : Nat := min p.bm p.hdr.nextPage
+
 /-- what the page phase of a compaction establishes -/
 structure PagesPost (cfg : Cfg) (T : List Tx) (fs : FS) (m : Mem) (covered : List Nat) : Prop where
   nofail : failOf (pagesA cfg m fs.pv).1 = none
+  plain : Plain (pagesA cfg m fs.pv).1
   pager : PagerActs (pagesA cfg m fs.pv).1
   setpm : OnlySetPm (memUpds (pagesA cfg m fs.pv).1)
   lastpm : lastPm (memUpds (pagesA cfg m fs.pv).1) m.pm = (pagesA cfg m fs.pv).2.1.pm
-  safe : SafeAlong (fun g => AllImgsL m.proot g (fun p => ∃ n, CG fs.pd m.proot (allProps T) covered n p)) fs
+  lastbm : lastBm (memUpds (pagesA cfg m fs.pv).1) m.bm = (pagesA cfg m fs.pv).2.1.bm
+  safe : SafeAlong (fun g => AllImgsL m.proot g (fun p => ∃ n, CG fs.pd m.proot (allProps T) covered (frontier fs.pd) n p)) fs
     (ioSteps (pagesA cfg m fs.pv).1)
   pj : (fs.steps (ioSteps (pagesA cfg m fs.pv).1)).pj = [PEff.stats]
   hdr : (fs.steps (ioSteps (pagesA cfg m fs.pv).1)).pd.hdr = (pagesA cfg m fs.pv).2.1.pm
-  cg : ∃ n, CG fs.pd m.proot (allProps T) covered n (fs.steps (ioSteps (pagesA cfg m fs.pv).1)).pd
-  k0 : (pagesA cfg m fs.pv).2.2.1 = fs.pd.hdr.nextPage
+  pbm : (fs.steps (ioSteps (pagesA cfg m fs.pv).1)).pd.bm = (pagesA cfg m fs.pv).2.1.bm
+  cg : ∃ n, CG fs.pd m.proot (allProps T) covered (frontier fs.pd) n (fs.steps (ioSteps (pagesA cfg m fs.pv).1)).pd
+  k0 : (pagesA cfg m fs.pv).2.2.1 = min m.bm m.pm.nextPage
   seg : ∃ s, segFind (fs.steps (ioSteps (pagesA cfg m fs.pv).1)).pd (pagesA cfg m fs.pv).2.2.1 = some s ∧ s.edges = cEdges m
   same : cProps m = [] → (pagesA cfg m fs.pv).2.2.2 = (m.proot, m.ptop)
   tree : cProps m ≠ [] → (pagesA cfg m fs.pv).2.2.2.1 ≠ 0 ∧ (pagesA cfg m fs.pv).2.2.2.2 = false ∧
@@ -330,18 +338,24 @@ theorem pages_post {cfg : Cfg} {T : List Tx} {fs : FS} {m : Mem} {cs : List CTx}
     PagesPost cfg T fs m covered := by
   have hpv : fs.pv = fs.pd := h.pv
   have hlive : m.proot = (scan cs).proot := h.mroot
-  have hinit : AllImgsL m.proot fs (CG fs.pd m.proot (allProps T) covered fs.pd.hdr.nextPage) := by
+  have hinit : AllImgsL m.proot fs (CG fs.pd m.proot (allProps T) covered (frontier fs.pd) (frontier fs.pd)) := by
     refine allImgsL_of_inert _ fs _ h.pj ?_
-    exact { i2e := rfl, cat := rfl, idx := rfl, hdr := SameKey.refl _, np := Nat.le_refl _, len := Nat.le_refl _,
-            segOld := fun _ _ => rfl, segKeys := h.store.segKeys, treeKeys := h.store.treeKeys,
+    exact { i2e := rfl, cat := rfl, idx := rfl, hdr := SameKey.refl _, lond := Nat.le_refl _, np := Nat.min_le_right _ _,
+            bmlo := Nat.min_le_left _ _, len := Nat.le_refl _,
+            segOld := fun _ _ => rfl,
+            segKeys := fun s hs => by have := h.store.segKeys s hs; unfold frontier; omega,
+            treeKeys := fun t ht => by have := h.store.treeKeys t ht; unfold frontier; omega,
             treeLive := by rw [hlive]; exact hc3 }
-  have hsk0 : SameKey fs.pd.hdr (m.ps fs.pv).pm := by
-    show SameKey fs.pd.hdr m.pm
-    rw [h.mpm]; exact SameKey.refl _
-  have hnp0 : (m.ps fs.pv).pm.nextPage = fs.pd.hdr.nextPage := by
-    show m.pm.nextPage = _
-    rw [h.mpm]
-  obtain ⟨hk0, nd1, bseg⟩ := pblk_segA (p0 := fs.pd) (live := m.proot) (allowed := allProps T) (covered := covered) m (m.ps fs.pv) hsk0 hnp0
+  have hsk0 : SameKey fs.pd.hdr (m.ps fs.pv).pm := h.mpm
+  have hnp0 : frontier fs.pd ≤ min (m.ps fs.pv).bm (m.ps fs.pv).pm.nextPage := by
+    show frontier fs.pd ≤ min m.bm m.pm.nextPage
+    have := h.mbm
+    have := h.mpm.np
+    unfold frontier; omega
+  have hmfe : min (m.ps fs.pv).bm (m.ps fs.pv).pm.nextPage = min m.bm m.pm.nextPage := rfl
+  rw [hmfe] at hnp0
+  obtain ⟨hk0, nd1, bseg⟩ := pblk_segA (p0 := fs.pd) (live := m.proot) (lo := frontier fs.pd) (allowed := allProps T) (covered := covered) m (m.ps fs.pv) hsk0 hnp0
+  rw [hmfe] at hk0 bseg
   have hprops : ∀ q ∈ cProps m, q ∈ allProps T := by
     intro q hq
     have := (mem_sortNat q _).mp hq
@@ -350,13 +364,15 @@ theorem pages_post {cfg : Cfg} {T : List Tx} {fs : FS} {m : Mem} {cs : List CTx}
   have hpos : 0 < nd1 := by
     have := bseg.mono
     have := h.pager.booted.nextPage
+    have := h.pager.booted.bm
+    unfold frontier at *
     omega
   obtain ⟨nd2, teffs, btree, hTE, hcase1, hcase2⟩ :=
-    pblk_treeA (p0 := fs.pd) (live := m.proot) (allowed := allProps T) (covered := covered) cfg m fs.pv (segA m (m.ps fs.pv)).2.1 nd1
+    pblk_treeA (p0 := fs.pd) (live := m.proot) (lo := frontier fs.pd) (allowed := allProps T) (covered := covered) cfg m fs.pv (segA m (m.ps fs.pv)).2.1 nd1
       bseg.sk bseg.np hpos rfl (by rw [hpv]) hns hprops (by rw [hlive]; exact hc2) (by rw [hlive]; exact hc3)
-  obtain ⟨ba, _, hef⟩ := pblk_alloc (p0 := fs.pd) (live := m.proot) (allowed := allProps T) (covered := covered)
+  obtain ⟨ba, _, hef⟩ := pblk_alloc_eq (p0 := fs.pd) (live := m.proot) (lo := frontier fs.pd) (allowed := allProps T) (covered := covered)
     (treeA cfg m fs.pv (segA m (m.ps fs.pv)).2.1).2.1 btree.sk btree.np
-  have bw := pblk_write (p0 := fs.pd) (live := m.proot) (allowed := allProps T) (covered := covered) ba.sk ba.np .stats
+  have bw := pblk_write (p0 := fs.pd) (live := m.proot) (lo := frontier fs.pd) (allowed := allProps T) (covered := covered) ba.sk ba.np .stats
     (allocA (treeA cfg m fs.pv (segA m (m.ps fs.pv)).2.1).2.1).2.2 trivial
   have hall := ((bseg.append btree).append ba).append bw
   have hacts : (pagesA cfg m fs.pv).1 = (((segA m (m.ps fs.pv)).1 ++ (treeA cfg m fs.pv (segA m (m.ps fs.pv)).2.1).1) ++
@@ -371,9 +387,11 @@ theorem pages_post {cfg : Cfg} {T : List Tx} {fs : FS} {m : Mem} {cs : List CTx}
   have hflush : ((fs.steps (ioSteps (((segA m (m.ps fs.pv)).1 ++ (treeA cfg m fs.pv (segA m (m.ps fs.pv)).2.1).1) ++
       (allocA (treeA cfg m fs.pv (segA m (m.ps fs.pv)).2.1).2.1).1))).pj = []) ∧
       (fs.steps (ioSteps (((segA m (m.ps fs.pv)).1 ++ (treeA cfg m fs.pv (segA m (m.ps fs.pv)).2.1).1) ++
-      (allocA (treeA cfg m fs.pv (segA m (m.ps fs.pv)).2.1).2.1).1))).pd.hdr = (pagesA cfg m fs.pv).2.1.pm := by
+      (allocA (treeA cfg m fs.pv (segA m (m.ps fs.pv)).2.1).2.1).1))).pd.hdr = (pagesA cfg m fs.pv).2.1.pm ∧
+      (fs.steps (ioSteps (((segA m (m.ps fs.pv)).1 ++ (treeA cfg m fs.pv (segA m (m.ps fs.pv)).2.1).1) ++
+      (allocA (treeA cfg m fs.pv (segA m (m.ps fs.pv)).2.1).2.1).1))).pd.bm = (pagesA cfg m fs.pv).2.1.bm := by
     rw [hps]
-    exact synced_of_endsFlushed (endsFlushed_append (bseg.append btree).nofail hef)
+    exact synced_of_endsFlushed (fs := fs) (endsFlushed_append (bseg.append btree).nofail hef)
   have hfinal : fs.steps (ioSteps (pagesA cfg m fs.pv).1) =
       (fs.steps (ioSteps (((segA m (m.ps fs.pv)).1 ++ (treeA cfg m fs.pv (segA m (m.ps fs.pv)).2.1).1) ++
         (allocA (treeA cfg m fs.pv (segA m (m.ps fs.pv)).2.1).2.1).1))).step
@@ -384,8 +402,11 @@ theorem pages_post {cfg : Cfg} {T : List Tx} {fs : FS} {m : Mem} {cs : List CTx}
     rw [hfinal]
     show _ ++ [PEff.stats] = _
     rw [hflush.1]; rfl
+  have hstep_pd : ∀ (g : FS) (e : PEff) (pid : Nat), (g.step (.pg e pid)).pd = g.pd := fun _ _ _ => rfl
   have hhdrF : (fs.steps (ioSteps (pagesA cfg m fs.pv).1)).pd.hdr = (pagesA cfg m fs.pv).2.1.pm := by
-    rw [hfinal]; exact hflush.2
+    rw [hfinal, hstep_pd]; exact hflush.2.1
+  have hbmF : (fs.steps (ioSteps (pagesA cfg m fs.pv).1)).pd.bm = (pagesA cfg m fs.pv).2.1.bm := by
+    rw [hfinal, hstep_pd]; exact hflush.2.2
   have hinertF : Inert (fs.steps (ioSteps (pagesA cfg m fs.pv).1)).pj := by
     rw [hpjF]; intro e he; simpa using he
   -- segments and trees of the final image
@@ -395,41 +416,42 @@ theorem pages_post {cfg : Cfg} {T : List Tx} {fs : FS} {m : Mem} {cs : List CTx}
   rw [hpv] at hST
   simp only [ST, Prod.mk.injEq] at hST
   obtain ⟨hsegs, htrees⟩ := hST
-  have hfresh : ∀ s ∈ fs.pd.segs, s.key ≠ fs.pd.hdr.nextPage := fun s hs => Nat.ne_of_lt (h.store.segKeys s hs)
+  have hfresh : ∀ s ∈ fs.pd.segs, s.key ≠ (min m.bm m.pm.nextPage) := fun s hs => by
+    have := h.store.segKeys s hs; unfold frontier at hnp0; omega
   have hTE' : ∀ e ∈ teffs ++ [] ++ [PEff.stats], TreeE e := by
     intro e he
     simp only [List.append_nil, List.mem_append, List.mem_singleton] at he
     rcases he with he | rfl
     · exact hTE e he
     · trivial
-  have hsplit : (0 :: (segJs m ++ [cNData m])).map (fun j => PEff.segPart fs.pd.hdr.nextPage j (cNData m + 1) (cEdges m)) ++ teffs ++ [] ++ [PEff.stats] =
-      (PEff.segPart fs.pd.hdr.nextPage 0 (cNData m + 1) (cEdges m) ::
-        (segJs m ++ [cNData m]).map (fun j => PEff.segPart fs.pd.hdr.nextPage j (cNData m + 1) (cEdges m))) ++ (teffs ++ [] ++ [PEff.stats]) := by
+  have hsplit : (0 :: (segJs m ++ [cNData m])).map (fun j => PEff.segPart (min m.bm m.pm.nextPage) j (cNData m + 1) (cEdges m)) ++ teffs ++ [] ++ [PEff.stats] =
+      (PEff.segPart (min m.bm m.pm.nextPage) 0 (cNData m + 1) (cEdges m) ::
+        (segJs m ++ [cNData m]).map (fun j => PEff.segPart (min m.bm m.pm.nextPage) j (cNData m + 1) (cEdges m))) ++ (teffs ++ [] ++ [PEff.stats]) := by
     simp
-  have hsegF : pdF.segs = ⟨fs.pd.hdr.nextPage, cEdges m, cNData m + 1, (segJs m ++ [cNData m]).reverse ++ [0]⟩ :: fs.pd.segs := by
+  have hsegF : pdF.segs = ⟨(min m.bm m.pm.nextPage), cEdges m, cNData m + 1, (segJs m ++ [cNData m]).reverse ++ [0]⟩ :: fs.pd.segs := by
     rw [hsegs, hsplit, applyEffs_append, segs_treeEffs _ hTE']
-    have h1 : applyEffs (PEff.segPart fs.pd.hdr.nextPage 0 (cNData m + 1) (cEdges m) ::
-        (segJs m ++ [cNData m]).map (fun j => PEff.segPart fs.pd.hdr.nextPage j (cNData m + 1) (cEdges m))) fs.pd =
-        applyEffs ((segJs m ++ [cNData m]).map (fun j => PEff.segPart fs.pd.hdr.nextPage j (cNData m + 1) (cEdges m)))
-          (applyEff (PEff.segPart fs.pd.hdr.nextPage 0 (cNData m + 1) (cEdges m)) fs.pd) := rfl
+    have h1 : applyEffs (PEff.segPart (min m.bm m.pm.nextPage) 0 (cNData m + 1) (cEdges m) ::
+        (segJs m ++ [cNData m]).map (fun j => PEff.segPart (min m.bm m.pm.nextPage) j (cNData m + 1) (cEdges m))) fs.pd =
+        applyEffs ((segJs m ++ [cNData m]).map (fun j => PEff.segPart (min m.bm m.pm.nextPage) j (cNData m + 1) (cEdges m)))
+          (applyEff (PEff.segPart (min m.bm m.pm.nextPage) 0 (cNData m + 1) (cEdges m)) fs.pd) := rfl
     rw [h1]
     exact segs_parts _ _ _ _ _ _ _ [0] fs.pd.segs (updSeg_fresh _ _ _ _ _ hfresh) hfresh
   have htreeF : ∀ p1 : PImg, p1 = applyEffs ((0 :: (segJs m ++ [cNData m])).map
-      (fun j => PEff.segPart fs.pd.hdr.nextPage j (cNData m + 1) (cEdges m))) fs.pd →
+      (fun j => PEff.segPart (min m.bm m.pm.nextPage) j (cNData m + 1) (cEdges m))) fs.pd →
       pdF.trees = (applyEffs teffs p1).trees ∧ p1.trees = fs.pd.trees := by
     intro p1 hp1
     constructor
     · rw [htrees, List.append_assoc, List.append_assoc, applyEffs_append, ← hp1, List.nil_append, applyEffs_append]
       rfl
     · rw [hp1]; exact trees_segParts _ _ _ _ _
-  refine { nofail := hall.nofail, pager := hall.pager, setpm := hall.setpm, lastpm := hall.lastpm, safe := hall.safe fs hinit,
-           pj := hpjF, hdr := hhdrF, cg := ?_, k0 := by rw [hkey]; exact hk0, seg := ?_, same := ?_, tree := ?_ }
+  refine { nofail := hall.nofail, plain := hall.plain, pager := hall.pager, setpm := hall.setpm, lastpm := hall.lastpm, lastbm := hall.lastbm,
+           safe := hall.safe fs hinit, pj := hpjF, hdr := hhdrF, pbm := hbmF, cg := ?_, k0 := by rw [hkey]; exact hk0, seg := ?_, same := ?_, tree := ?_ }
   · rw [hpdF]
     have := allImgsL_pd _ _ _ (hall.post fs hinit)
     rw [hpdF] at this
     exact ⟨_, this⟩
   · rw [hkey, hk0, hpdF]
-    refine ⟨⟨fs.pd.hdr.nextPage, cEdges m, cNData m + 1, (segJs m ++ [cNData m]).reverse ++ [0]⟩, ?_, rfl⟩
+    refine ⟨⟨(min m.bm m.pm.nextPage), cEdges m, cNData m + 1, (segJs m ++ [cNData m]).reverse ++ [0]⟩, ?_, rfl⟩
     simp only [segFind, hsegF, List.find?_cons, beq_self_eq_true, Bool.true_and, complete_parts]
   · intro hp
     rw [hrt]; exact (hcase1 hp).1
